@@ -14,6 +14,7 @@
 import Lumina.Proofs.DecodersRows
 import Lumina.Spec.C16
 import Lumina.Gen.C16
+import Lumina.Props.C03
 
 namespace Lumina.Props.C16
 open Lumina.Util Lumina.Model.Eds Lumina.Model.Decoders Lumina.Proofs.Decoders
@@ -336,5 +337,26 @@ theorem no_panic_eds_response_first_encode (c : Codec) (rawLen : Nat) (row : Lis
     apply leoEncode_noPanic
     · rw [List.length_append, List.length_replicate, hk]; omega
     · rw [List.length_append, List.length_replicate, hk]; omega
+
+/-! ## ExtendedHeader -/
+
+/-- `ExtendedHeader::try_from(raw)` (conversion + `validate`): with the validator set as tendermint builds it
+    (total = sum of powers ≤ `MAX_TOTAL_VOTING_POWER`) the only arithmetic in lumina's part, the voting-power
+    tally of `verify_commit_light`, cannot overflow (C03 `light_no_panic`) -/
+theorem no_panic_extended_header (sigOk : Nat → Nat → Bool) (parts : Option EhParts)
+    (hwf : ∀ p, parts = some p → p.valset.wf = true) : NoPanic (ehDecodeValidate sigOk parts) := by
+  rw [noPanic_iff]
+  unfold ehDecodeValidate
+  cases parts with
+  | none => rfl
+  | some p =>
+    simp only
+    unfold ehValidate
+    repeat' split
+    all_goals first
+      | rfl
+      | (rename_i hpanic; exact absurd hpanic (Lumina.Props.C03.light_no_panic sigOk 2 3 p.valset _ _ _ (hwf p rfl)))
+
+example : (⟨[⟨[1], 5⟩, ⟨[2], 7⟩], 12, true⟩ : Lumina.Model.Commit.ValSet).wf = true := by decide
 
 end Lumina.Props.C16
